@@ -242,6 +242,11 @@ impl<T> Ord for Entry<T> {
     }
 }
 
+#[cfg(any(kani, caio_foca_verif))]
+#[allow(missing_docs, unreachable_pub, dead_code, unused, private_interfaces, clippy::all)]
+#[path = "/verif/kani/incrate/broadcast_hook.rs"]
+pub(crate) mod verif_hook;
+
 #[cfg(test)]
 mod tests {
 
